@@ -31,6 +31,21 @@ claim("C19", "ownership typestate: fixpoint of owner-requiring methods/parameter
 claim("C20", "enum-exhaustive flag re-derivation check + block-level pairing of flag/index/subtree updates + key provenance (shared with C10) + predicate shape rules",
       "Decides structurally for dns/btreezone.py: R-20.1 at every site of WritableVersion that replaces a node by a fresh one, every NodeFlags member is copied or re-derived under the right predicate (ORIGIN/_is_origin, GLUE/is_glue, DELEGATION/membership in the index); R-20.2 delegations.add/discard, the DELEGATION flag and update_glue_flag of the subtree always change together, delete_node mirrors delete_rdataset, update_glue_flag walks exactly the proper subdomains and sets/clears GLUE on the right side; R-20.3 map and index are B-tree containers, keys are validated, get_delegation/is_glue have the documented shape. Known finding (listed, not fixed): nested cuts are load-order dependent. Does NOT decide bounds() results or equality of incremental and recomputed state over histories.",
       "DESIGN.md section 3, C20")
+claim("C13", "commit-last typestate on the CFG of Inbound.process_message and of every driver (boolean result propagated through loop tests) + guard-dominance rules",
+      "Decides structurally: R-13.1 no raise/assert is reachable after self.txn.commit() in process_message, the commit happens only when done, and in every function that drives an Inbound no raise is reachable after a process_message call that returned True (2 known findings listed: the late 'missing TSIG' check in both _inbound_xfr twins); R-13.2 __exit__ rolls back an open transaction, the AXFR-style fallback rolls back before opening the replacement writer, IXFR deletions use delete_exact under delete_mode, serial regression uses dns.serial.Serial, the `done`/in-zone/rcode guards dominate every zone mutation, the final-SOA conditions are intact; R-13.3 both _inbound_xfr twins run inside `with Inbound(...)`, parse with xfr/one_rr_per_rrset(IXFR)/multi/tsig_ctx/origin and thread the TSIG context, inbound_xfr maps UseTCP to a TCP retry. Does NOT decide convergence to the server's version for all streams and message splits.",
+      "DESIGN.md section 3, C13")
+claim("C06", "operator-table check over rich comparisons + single-normaliser dataflow + mirrored-arm and guard shape rules on fullcompare/relativize",
+      "Decides the comparison structure (names are touched only through comparisons, a finite structure): R-06.1 each Name rich comparison returns fullcompare(other)[1] <op> 0 with the operator its name says, foreign operands give NotImplemented/False/True; R-06.2 fullcompare folds both labels with the same normaliser, __hash__ folds every octet with it, canonicalize/to_wire/to_digestable use it; R-06.3 the </> arms of fullcompare are mirrored, relative sorts before absolute, the scan is right-to-left over min(len) labels, the tie-break and relation come from len(self)-len(other), is_subdomain/is_superdomain accept exactly {SUB|SUPER}DOMAIN and EQUAL; R-06.4 relativize strips exactly len(origin) labels under is_subdomain(origin), derelativize appends only to relative names. Totality/transitivity/hash coherence follow from these plus bytes comparison (trusted). Does NOT decide RFC 4471 successor/predecessor correctness (octet arithmetic; the known failure for a label of 63 'Z' octets is out of static reach).",
+      "DESIGN.md section 3, C06")
+claim("C07", "decorator census + provenance classification of constructor field stores (reaching definitions) + operator table + aliasing-guard dominance + write-before-raise analysis",
+      "Decides structurally: R-07.1 Name, every Rdata subclass and helper value classes are @immutable and the guard is bypassed only at 5 reasoned constructor-like sites; R-07.2 every field stored by an immutable class's __init__ has an immutable kind (validator result, tuple/float/int/str/bytes, enum, constify/Dict, constant), never a bare parameter (6 reasoned exceptions); R-07.3 Rdata.__eq__/__hash__ derive from the same to_digestable image, ordering dunders follow the operator table over _cmp, _cmp is a mirrored three-way comparison; R-07.4 Set methods that mutate while iterating the other operand are guarded by `self is other` or iterate a copy, and the aliasing arms do the right thing; R-07.5 in Rdataset.add no refusal is reachable after the first write; R-07.6 singleton clear and TTL minimisation are wired on add/union/intersection/update. Does NOT decide the algebraic set laws over operation sequences.",
+      "DESIGN.md section 3, C07")
+claim("C14", "ordered-effect projection of _digest per flag valuation against the RFC 8945 table + dominance rules on validate + table agreement",
+      "Decides structurally: R-14.1 for each valuation of (first, request MAC present) the flattened, typed sequence of ctx.update inputs of dns.tsig._digest equals RFC 8945 4.3 (request MAC with length prefix, original id | wire[2:], key name/class/TTL, algorithm, 48-bit time, fudge, error, other) and the multi-message continuation starts with the length-prefixed prior MAC - an oracle independent of the implementation, unlike the symmetric sign/verify tests; R-14.2 validate digests header[0:10] | ARCOUNT-1 | body up to the TSIG, the error/time-window/key-name/algorithm checks precede the MAC check and always raise, every normal return is dominated by ctx.verify(rdata.mac), HMAC verify is compare_digest over the (truncated) digest; R-14.3 _hashes and mac_sizes agree per algorithm name; R-14.4 a misplaced TSIG raises BadTSIG (a FormError) and Message.to_wire signs the wire produced after write_header(). Does NOT compute MAC values; rejection of every bit flip follows from HMAC (trusted).",
+      "DESIGN.md section 3, C14")
+claim("C15", "per-type dataflow of canonicalize/compress parameters into embedded-name encoders vs the RFC 4034 6.2 / RFC 6840 5.1 table + ordered composition checks",
+      "Decides structurally: R-15.1 for every concrete record class the canonicalize parameter of _to_wire (through super() chains and helper codecs) reaches each embedded Name.to_wire iff the type is in the RFC list (9 known findings listed: CH/A lower-cases; MD MF MB MG MR MINFO NXT A6 are unimplemented hence never lower-cased); R-15.2 to_digestable reaches _to_wire with no compression table and no codec manufactures one; R-15.3 the RRSIG signing input, DS digest input, NSEC3 hash and ZONEMD digest are composed in the RFC order from canonical owner/RDATA, sorted; R-15.4 the NSEC walk iterates sorted names, skips names beneath the current delegation, wraps to the origin and builds bitmaps from node types + RRSIG + NSEC. Does NOT compute numeric results (key tags, digests, bitmap octets).",
+      "DESIGN.md section 3, C15")
 # CLAIMS-END
 
 NA_REASON = {}
